@@ -65,7 +65,7 @@ fn main() {
             // store does may depend on what the calling thread is called
             handles.push(
                 std::thread::Builder::new()
-                    .name(format!("{}-pool_thread_{}", env.cfg.name, role))
+                    .name(client_thread_name(&env.cfg.name, &role, ri % 2 == 1))
                     .spawn(move || client_main(shc, role, p))
                     .unwrap(),
             );
